@@ -34,12 +34,25 @@ Definition dmodel_agree (o : dobs) : N :=
 (* reference: if the reference decoder accepts the bytes and the type admits the item, the
    implementation must return exactly that item's value, the reference's end position, and
    re-encode canonically *)
+(* the catch-all types (ANYVALUE, a Dynamic without a type list) are defined to take ANY item: judged against E5's item kinds, not
+   against the type list the source happens to give ANYVALUE (a kind missing there, at the top or inside a list, is a violation) *)
+Fixpoint admits_open (i : e5item) : bool :=
+  match i with
+  | EL l => forallb admits_open l
+  | _ => match kind_of_item i with Some k => scalar_admits k (-1) i | None => false end
+  end.
+Definition is_catch_all (t : ty) : bool :=
+  match t with
+  | TDyn allowed c => (c =? -1)%Z && match allowed with [] => true | _ => list_eqb dkind_eqb allowed anyvalue_types end
+  | _ => false
+  end.
+
 Definition dspec_holds (o : dobs) : N :=
   if negb (bytesb (d_bytes o)) then 1 else
   match e5_decode (length (d_bytes o)) (d_bytes o) with
   | None => 1
   | Some (i, rest) =>
-    if negb (admits i (d_ty o)) then 1 else
+    if negb (if is_catch_all (d_ty o) then admits_open i else admits i (d_ty o)) then 1 else
     if negb (d_ok o) then 32 else
     if negb (val_eqb (embed i (d_ty o)) (d_val o)) then 34 else
     if negb (d_end o =? nlen (d_bytes o) - nlen rest) then 33 else
